@@ -25,7 +25,7 @@ RULES = {
     "C08": "well-formed processor (capabilities may dead-end); non-trivial = a stall error, or a run of at least 3 cycles; distinct = sha1",
 }
 CAPS = ["ALU", "MEM", "BR"]
-FAMILIES = ["parts", "parts", "widechain", "loader", "small", "deadend", "wide", "illformed", "parts", "widechain"]
+FAMILIES = ["parts", "bypass", "widechain", "loader", "small", "deadend", "wide", "illformed", "parts", "widechain", "bypass", "parts"]
 TIMEOUT = 20.0
 
 
@@ -45,6 +45,32 @@ def gen_units(rng, family):
             units[u] = dict(name="%s%d" % ("cmxq"[u], rng.randint(0, 9)), width=rng.randint(2, 4), caps=["ALU"],
                             rl=(u == ra), wl=(u == wb), acl=(["ALU"] if rng.random() < 0.1 else []))
         return units, {(u, u + 1) for u in range(n - 1)}, ["ALU"]
+    if family == "bypass":
+        # a chain of 4-7 units with forward skip connections spanning two or more stages (unequal-length routes between
+        # the same units): the sink-first processing order matters exactly here
+        n = rng.randint(4, 7)
+        units = {}
+        for u in range(n):
+            units[u] = dict(name="%s%d" % (rng.choice("abcdxyz"), u if rng.random() < 0.5 else n - u), width=rng.randint(1, 3),
+                            caps=["ALU"], rl=(u == 0), wl=(u == n - 1), acl=(["ALU"] if rng.random() < 0.08 else []))
+        names = set()
+        for u in units:  # distinct names up to case
+            while units[u]["name"].lower() in names:
+                units[u]["name"] += "q"
+            names.add(units[u]["name"].lower())
+        edges = {(u, u + 1) for u in range(n - 1)}
+        for _ in range(rng.randint(1, 3)):
+            a = rng.randint(0, n - 3)
+            b = rng.randint(a + 2, n - 1)
+            edges.add((a, b))
+        # the locks go to units no skip connection jumps over (every route crosses them), read lock not after write lock
+        cut = [u for u in range(n) if not any(a < u < b for (a, b) in edges)]
+        ra = rng.choice(cut)
+        wb = rng.choice([u for u in cut if u >= ra])
+        for u in range(n):
+            units[u]["rl"] = (u == ra)
+            units[u]["wl"] = (u == wb)
+        return units, edges, ["ALU"]
     if family == "small":
         nlayers = rng.randint(1, 2)
         widths = (1, 2)
@@ -334,7 +360,7 @@ def ex_forms(incaps):
 
 
 def cases(tier: str) -> list:
-    n = 10000 if tier == "quick" else 150000
+    n = 12000 if tier == "quick" else 180000
     cs = list(range(n))
     if tier == "thorough":
         # small scope, exhaustively: every program of up to 3 instructions over 2 registers on a catalogue of small
@@ -397,7 +423,7 @@ def gen_input(case, tier="quick"):
         units, edges, caps = gen_units(rng, "small")
         proc = build_from_parts(rng, units, set())
     incaps = sorted({c for m in list(proc.in_ports) + list(proc.in_out_ports) for c in m.capabilities})
-    prog = gen_prog(rng, incaps, tier == "thorough", dense=(family == "widechain" and rng.random() < 0.8))
+    prog = gen_prog(rng, incaps, tier == "thorough", dense=(family in ("widechain", "bypass") and rng.random() < 0.8))
     return family, {"proc": proc_json(proc), "prog": prog_json(prog)}
 
 
